@@ -28,3 +28,16 @@ Example C16_nonvacuous_double :
   print (ENum (NDbl 4906019910204099648)) = b "1e+20" /\
   print (ENum (NDbl 4607182418800017409)) = b "1.0".
 Proof. vm_compute. repeat split; reflexivity. Qed.
+(* the fragment of the partial parse_print theorem contains nested powers that need parentheses *)
+From SE Require Import Parse.PrintParse Parse.PrintParse2.
+Definition pw_ex : expr :=
+  EPow (EPow (EPow sx sy) (ENum (NInt (Z.of_N 2)))) (EPow (ESym (b "z_1")) (ENum (NInt (Z.of_N 30)))).
+Example C16_nonvacuous_powfrag :
+  powfrag pw_ex /\ print pw_ex = b "((x**y)**2)**(z_1**30)" /\
+  parse_syntax (print pw_ex) true =
+    TopOk (PBin BPow (PBin BPow (PBin BPow (PIdent (b "x")) (PIdent (b "y"))) (PNum (b "2")))
+                     (PBin BPow (PIdent (b "z_1")) (PNum (b "30")))).
+Proof.
+  split; [|split; vm_compute; reflexivity].
+  repeat (apply PF_pow || apply PF_nat || (apply PF_sym; reflexivity)).
+Qed.
